@@ -1,6 +1,11 @@
 # Human-written level texts per claimed property (used by tools/gen_manifest.py).
 HOOK_COMMITS = []
 META = {
+    "C14": {
+        "text": "Bounded model checking of the real address pipeline with the database name a symbolic byte string: 2-safety (two peers, same inputs, equal addresses), injectivity, self-description (Parse(String()) and manifest at the root), reopen on another peer (type and write list), overwrite / local-only refusal, and names embedding another database's root.",
+        "design_ref": "DESIGN.md §2 C14",
+        "note": "Trusted: perfect hashing, idealised CBOR driven by the registered atlases, disk model. Bounds: names <= 2 bytes quick / 4 thorough (injectivity 1 / 2), 3 store types, <= 3 writers.",
+    },
     "C02": {
         "text": "Bounded model checking of a two-replica closed system executing the real write, announce, exchange-heads, Sync, replicator, Join and Load code: every fault plan of lost announcements and one restart within STEPS steps is explored (payloads symbolic), then the heal phase runs and both logs are compared.",
         "design_ref": "DESIGN.md §2 C02",
